@@ -281,6 +281,29 @@ let check_tokens (cfg : econfig) (ops : eop list) (tr : tok list) : unit =
            | _ -> ()) seg
        end
      | _ -> ());
+    (* C16 / C02: only an invocation that returned a next status with a nil error is followed by a status write *)
+    (if on "C16" || on "C02" then begin
+       let last = ref None in
+       List.iter (function
+         | TUser (u, view, _, _, planned) when is_step_fn u -> last := Some (view.r_run, planned)
+         | TStore (Some p, r, _) ->
+           (match !last with
+            | Some (run, planned) when run = r.r_run && (r.r_status <> p.r_status || (r.r_obj <> p.r_obj && r.r_state <> RSDataDeleted)) ->
+              (match planned with
+               | UErr _ -> bad (if on "C16" then "C16" else "C02") "run %d: the function returned an error, yet a status / object change was persisted" (ni r.r_run)
+               | URet z when zi z = 0 || zi z = -1 -> bad (if on "C16" then "C16" else "C02") "run %d: the function asked to skip, yet a status / object change was persisted" (ni r.r_run)
+               | UPauseA | UCancelA -> bad (if on "C16" then "C16" else "C02") "run %d: the function paused / cancelled the run, yet a status / object change was persisted" (ni r.r_run)
+               | URet z -> if zi z <> zi r.r_status then bad (if on "C16" then "C16" else "C02") "run %d: the function returned status %d but %d was persisted" (ni r.r_run) (zi z) (zi r.r_status)
+               | _ -> ())
+            | _ -> ())
+         | _ -> ()) seg
+     end);
+    (* C11: a background process never terminates while the workflow is running *)
+    (if on "C11" || on "C07" || on "C01" then
+       match unit_of_op with
+       | Some _ when List.exists (function TApi z -> zi z = -1 | _ -> false) seg ->
+         bad (if on "C11" then "C11" else prop) "a background process terminated while the workflow is running (it never asks for its role again)"
+       | _ -> ());
     (* C11: calls under the lease — every failed lease (can) is followed by no successful context call *)
     (if on "C11" then
        let lost = ref false in
@@ -321,6 +344,27 @@ let check_tokens (cfg : econfig) (ops : eop list) (tr : tok list) : unit =
         | _ -> ())
      | _ -> ())
   ) segs;
+  (* ---------------- quiescence of the observed execution ---------------- *)
+  (* quiescence of the observed execution: the last step of every process found nothing to do, and no timer is pending *)
+  let procs = List.sort_uniq compare (List.filter_map (function OStep (i, u, _) -> Some (zi i, u) | _ -> None) ops) in
+  let last_seg = Hashtbl.create 16 in
+  List.iteri (fun n seg -> match (try List.nth ops n with _ -> OAdvance Z0) with
+    | OStep (i, u, pl) -> Hashtbl.replace last_seg (zi i, u) (seg, pl, n)
+    | _ -> ()) segs;
+  let last_disturb = List.fold_left max (-1) (List.mapi (fun n o -> match o with OStep _ -> -1 | _ -> n) ops) in
+  let idle (seg, pl, n) =
+    pl = [] && n > last_disturb && seg <> [] &&
+    List.for_all (function
+      | TCall (KAW, _, (ROk | RBlocked), _) | TCall (KRV, _, RBlocked, _) | TCall (KNR, _, ROk, _) -> true
+      | TCall (KLO, _, ROk, []) | TCall (KTL, _, ROk, []) -> true
+      | _ -> false) seg &&
+    List.exists (function
+      | TCall (KAW, _, RBlocked, _) | TCall (KRV, _, RBlocked, _) | TCall (KLO, _, ROk, []) | TCall (KTL, _, ROk, []) -> true
+      | _ -> false) seg in
+  let quiescent =
+    procs <> [] && List.for_all (fun p -> match Hashtbl.find_opt last_seg p with Some x -> idle x | None -> false) procs
+    && not (List.exists (fun (_, _, _, _, live) -> !live) !timers) in
+
   (* ---------------- C01: prefix of the failure-free history; equal to it at quiescence ---------------- *)
   if on "C01" then begin
     (* the failure-free execution: the same operations without faults, crashes, lease revocations, rewinds, duplicates *)
@@ -346,25 +390,6 @@ let check_tokens (cfg : econfig) (ops : eop list) (tr : tok list) : unit =
     let dedup l = let rec go prev = function [] -> [] | x :: t -> if Some x = prev then go prev t else x :: go (Some x) t in go None l in
     let seq_of (hist : record list) run = dedup (List.filter_map (fun r -> if r.r_run = run then Some (r.r_status, r.r_obj) else None) hist) in
     let rec is_prefix a b = match a, b with [] , _ -> true | x :: ta, y :: tb -> x = y && is_prefix ta tb | _ :: _, [] -> false in
-    (* quiescence of the observed execution: the last step of every process found nothing to do, and no timer is pending *)
-    let procs = List.sort_uniq compare (List.filter_map (function OStep (i, u, _) -> Some (zi i, u) | _ -> None) ops) in
-    let last_seg = Hashtbl.create 16 in
-    List.iteri (fun n seg -> match (try List.nth ops n with _ -> OAdvance Z0) with
-      | OStep (i, u, pl) -> Hashtbl.replace last_seg (zi i, u) (seg, pl, n)
-      | _ -> ()) segs;
-    let last_disturb = List.fold_left max (-1) (List.mapi (fun n o -> match o with OStep _ -> -1 | _ -> n) ops) in
-    let idle (seg, pl, n) =
-      pl = [] && n > last_disturb && seg <> [] &&
-      List.for_all (function
-        | TCall (KAW, _, (ROk | RBlocked), _) | TCall (KRV, _, RBlocked, _) | TCall (KNR, _, ROk, _) -> true
-        | TCall (KLO, _, ROk, []) | TCall (KTL, _, ROk, []) -> true
-        | _ -> false) seg &&
-      List.exists (function
-        | TCall (KAW, _, RBlocked, _) | TCall (KRV, _, RBlocked, _) | TCall (KLO, _, ROk, []) | TCall (KTL, _, ROk, []) -> true
-        | _ -> false) seg in
-    let quiescent =
-      procs <> [] && List.for_all (fun p -> match Hashtbl.find_opt last_seg p with Some x -> idle x | None -> false) procs
-      && not (List.exists (fun (_, _, _, _, live) -> !live) !timers) in
     (* the failure-free execution must itself have come to rest for its final records to be the reference *)
     let ideal_rest = wi.w_outbox = [] in
     List.iter (fun (fid, k, run) ->
@@ -377,6 +402,28 @@ let check_tokens (cfg : econfig) (ops : eop list) (tr : tok list) : unit =
         if quiescent && ideal_rest && List.length mine < List.length ideal then
           bad "C01" "run %d (foreign ID %d): the system is quiescent but the run stopped %d step(s) short of the failure-free execution (stranded)" (ni run) (ni fid) (List.length ideal - List.length mine)
     ) my_runs
+  end;
+  (* ---------------- C14: at quiescence every entry into a hooked state has had its hook run to success ---------------- *)
+  if on "C14" && quiescent then begin
+    let final_of run = List.fold_left (fun acc r -> if r.r_run = run then Some r else acc) None !writes in
+    List.iter (fun (st, _) ->
+      let runs = List.sort_uniq compare (List.filter_map (fun (q, run, _) -> if q = st then Some run else None) !hooks_due) in
+      List.iter (fun run ->
+        let due = List.length (List.filter (fun (q, r, _) -> q = st && r = run) !hooks_due)
+        and don = List.length (List.filter (fun (q, r) -> q = st && r = run) !hooks_done) in
+        let deleted = (match final_of run with Some r -> r.r_obj = ODeleted || r.r_state = RSDataDeleted || r.r_state = RSReqDataDeleted | None -> true) in
+        if don < due && not deleted then
+          bad "C14" "run %d entered state %d %d time(s) but its hook completed only %d time(s) although nothing is pending" (ni run) (zi (rs_code st)) due don) runs
+    ) cfg.ec_hooks
+  end;
+  (* ---------------- C15: at quiescence no accepted deletion request is left unserved ---------------- *)
+  if on "C15" && quiescent then begin
+    let runs = List.sort_uniq compare (List.map (fun r -> r.r_run) !writes) in
+    List.iter (fun run ->
+      match List.fold_left (fun acc r -> if r.r_run = run then Some r else acc) None !writes with
+      | Some r when r.r_state = RSReqDataDeleted ->
+        bad "C15" "run %d: an accepted DeleteData request never reached DataDeleted although nothing is pending" (ni run)
+      | _ -> ()) runs
   end
 
 let check (a : ostring list) (obs : ostring list) : ostring option =
